@@ -1,8 +1,8 @@
 package main
 
 import (
-	"go/constant"
 	"go/ast"
+	"go/constant"
 	"go/token"
 	"go/types"
 	"regexp"
